@@ -109,4 +109,90 @@ theorem garfa (fm : FMap) (y0 x0 c0 ey ex ez sd sh sw : Int)
   repeat' py_split1
   all_goals simp only [List.map_append, List.map_nil, List.nil_append, List.append_nil, List.append_assoc]
 
+/-- a search loop: `for x in xs: if p(x): return True` (with `continue`s), over the image of a list -/
+theorem pyForE_any {α β : Type} (os : List β) (f : β → α) (body : Unit → α → M (Step Unit Bool)) (p : β → Bool)
+    (hb : ∀ o, body () (f o) = .ok (if p o then Step.ret true else Step.next ())) :
+    pyForE (os.map f) () body = .ok (if os.any p then Out.ret true else Out.done ()) := by
+  induction os with
+  | nil => rfl
+  | cons x rest ih =>
+    rw [List.map_cons, pyForE, hb, List.any_cons]
+    by_cases hp : p x = true
+    · simp only [hp, if_true, Bool.true_or]
+    · have hp' : p x = false := by simpa using hp
+      simp only [hp', Bool.false_eq_true, if_false, Bool.false_or]
+      exact ih
+
+theorem rov (a b : ARange) :
+    ranges_overlap (.py a.address) (.py a.length) (.py a.region) (.py b.address) (.py b.length) (.py b.region) =
+      .ok (rangesOverlap a b) := by
+  unfold rangesOverlap
+  by_cases hr : a.region = b.region
+  · have hr' : (a.region : Int) = (b.region : Int) := by omega
+    py_exec [ranges_overlap, SrcNumericUtil.overlaps_py, if_pos, if_neg, hr, hr']
+  · have hr' : ¬ (a.region : Int) = (b.region : Int) := by omega
+    py_exec [ranges_overlap, SrcNumericUtil.overlaps_py, if_pos, if_neg, hr, hr']
+    simp only [Bool.false_and]
+
+def pyOAR (o : Option ARange) : Option (Num × Num × Num) := o.map pyAR
+
+/-- does `a` overlap some range of the list (the `None`s are skipped) -/
+def anyOv (a : ARange) (l2 : List (Option ARange)) : Bool :=
+  l2.any fun o => match o with | none => false | some b => rangesOverlap a b
+
+theorem any_filterMap (a : ARange) (l2 : List (Option ARange)) :
+    (l2.filterMap id).any (fun b => rangesOverlap a b) = anyOv a l2 := by
+  unfold anyOv
+  induction l2 with
+  | nil => rfl
+  | cons o rest ih =>
+    cases o with
+    | none =>
+      simp only [List.filterMap_cons, id, List.any_cons, Bool.false_or]
+      exact ih
+    | some b =>
+      simp only [List.filterMap_cons, id, List.any_cons]
+      rw [ih]
+
+theorem rlo (l1 l2 : List (Option ARange)) :
+    range_lists_overlap (l1.map pyOAR) (l2.map pyOAR) =
+      .ok (rangeListsOverlap (l1.filterMap id) (l2.filterMap id)) := by
+  unfold range_lists_overlap rangeListsOverlap
+  rw [pyForE_any l1 pyOAR _ (fun o => match o with | none => false | some a => anyOv a l2)]
+  · -- the result of the outer loop
+    have : (l1.filterMap id).any (fun a => (l2.filterMap id).any fun b => rangesOverlap a b) =
+        l1.any (fun o => match o with | none => false | some a => anyOv a l2) := by
+      induction l1 with
+      | nil => rfl
+      | cons o rest ih =>
+        cases o with
+        | none =>
+          simp only [List.filterMap_cons, id, List.any_cons, Bool.false_or]
+          exact ih
+        | some a =>
+          simp only [List.filterMap_cons, id, List.any_cons]
+          rw [ih, any_filterMap]
+    rw [this]
+    split
+    · rename_i h
+      py_exec [h]
+    · rename_i h
+      have h' : (l1.any fun o => match o with | none => false | some a => anyOv a l2) = false := by simpa using h
+      py_exec [h']
+  · intro o
+    cases o with
+    | none => rfl
+    | some a =>
+      simp only [pyOAR, Option.map]
+      rw [pyForE_any l2 pyOAR _ (fun o => match o with | none => false | some b => rangesOverlap a b)]
+      · show _ = Except.ok (if anyOv a l2 = true then Step.ret true else Step.next ())
+        unfold anyOv
+        split <;> rfl
+      · intro o
+        cases o with
+        | none => rfl
+        | some b =>
+          simp only [pyOAR, Option.map, pyAR]
+          py_exec [rov]
+          split <;> rfl
 end VelaVerif.SrcNpuAccess
